@@ -47,6 +47,11 @@ fn mk_side(cfgline: &str) -> Side {
 
 /// execute one input line; appends the line and what was observed
 pub fn exec_line(p: &mut Pair, line: &str, out: &mut String) -> Option<String> {
+    if line.starts_with("case ") {
+        crate::pending::begin(&[line.to_string()]);
+    } else {
+        crate::pending::append(line);
+    }
     out.push_str(line);
     out.push('\n');
     let toks: Vec<&str> = line.split_whitespace().collect();
